@@ -35,6 +35,7 @@
 #include "dht/dht_router.h"
 #include "dht/dht_server.h"
 #include "dht/dht_transaction.h"
+#include "tracker/tracker_dht.h"
 
 using namespace ltv;
 using namespace torrent;
@@ -213,6 +214,120 @@ static std::string run_dv(const std::string& d) {
   return out;
 }
 
+// ------------------------------------------------------------------ find_node reply matched to a transaction
+//   DF <own 40hex> <target 40hex> <F|A> <responder id 40hex> <tid m|x> <id m|x> <src s|o> (~ | (R<id40>:<k> | X<hex>)*)
+// A real DhtRouter/DhtServer knows the responder (scripted socket 127.0.0.2) and has an outstanding find_node
+// transaction to it (F: DhtServer::find_node, A: DhtServer::announce with no tracker attached).  The responder's
+// reply carries a compact `nodes` string built from the tokens: R = 26-byte record (id, address of scripted socket
+// 127.0.0.<k>), X = raw bytes.  Output: the queries the server sends afterwards, as <q>@<k> sorted.
+static std::string run_df(const std::vector<std::string>& t) {
+  std::string own = unhex(t.at(1)), target = unhex(t.at(2)), resp = unhex(t.at(4));
+  bool announce = t.at(3) == "A";
+  if (own.size() != 20 || target.size() != 20 || resp.size() != 20) return "BADCASE";
+  ThreadMain::thread_main()->set_cached_time(std::chrono::seconds(400ll * 86400));
+  Object cache = Object::create_map();
+  cache.insert_key("self_id", own);
+  std::unique_ptr<DhtRouter> r(new DhtRouter(cache));
+  r->start(pick_port());
+  sockaddr_in srv{};
+  socklen_t sl = sizeof srv;
+  getsockname(r->m_server.file_descriptor(), reinterpret_cast<sockaddr*>(&srv), &sl);
+  sockaddr_in dst = mk_sin(0x7f000001, ntohs(srv.sin_port));
+  auto sock_addr = [&](int k) { sockaddr_in a{}; socklen_t l = sizeof a; getsockname(script_sock(0x7f000000 + k), reinterpret_cast<sockaddr*>(&a), &l); return a; };
+  std::string out;
+  try {
+    // the compact nodes string
+    std::string nodes;
+    bool has_nodes = !(t.size() > 8 && t.at(8) == "~");
+    for (size_t i = 8; has_nodes && i < t.size(); i++) {
+      const std::string& tok = t[i];
+      if (tok[0] == 'R') {
+        size_t c = tok.find(':');
+        sockaddr_in a = sock_addr(std::stoi(tok.substr(c + 1)));
+        nodes += unhex(tok.substr(1, c - 1));
+        nodes += std::string(reinterpret_cast<const char*>(&a.sin_addr.s_addr), 4);
+        nodes += std::string(reinterpret_cast<const char*>(&a.sin_port), 2);
+      } else if (tok[0] == 'X') {
+        nodes += unhex(tok.substr(1));
+      } else return "BADCASE";
+    }
+    sockaddr_in ra = sock_addr(2);
+    script_sock(0x7f000000 + 9);
+    HashString rid;
+    rid.assign(resp.data());
+    r->node_replied(rid, reinterpret_cast<const sockaddr*>(&ra));
+    auto drain = [&](std::vector<std::pair<int, std::string>>* into) {
+      if (!r->m_server.m_highQueue.empty() || !r->m_server.m_lowQueue.empty()) r->m_server.event_write();
+      for (auto& [sip, sfd] : g_socks) {
+        char buf[4096];
+        while (true) {
+          sockaddr_in from{};
+          socklen_t fl = sizeof from;
+          ssize_t n = recvfrom(sfd, buf, sizeof buf, 0, reinterpret_cast<sockaddr*>(&from), &fl);
+          if (n < 0) break;
+          if (from.sin_port != srv.sin_port) continue;
+          if (into) into->emplace_back((int)(sip & 0xff), std::string(buf, n));
+        }
+      }
+    };
+    drain(nullptr);
+    HashString tg;
+    tg.assign(target.data());
+    if (announce) r->m_server.announce(*r->bucket(), tg, std::weak_ptr<TrackerDht>());
+    else r->m_server.find_node(*r->bucket(), tg);
+    std::vector<std::pair<int, std::string>> got;
+    drain(&got);
+    std::string tid;
+    for (auto& [k, d] : got) {
+      Object o;
+      if (k != 2) continue;
+      if (object_read_bencode_c(d.data(), d.data() + d.size(), &o) != d.data() + d.size() || !o.is_map()) continue;
+      if (o.has_key_string("q") && o.get_key_string("q") == "find_node" && o.has_key_string("t")) tid = o.get_key_string("t");
+    }
+    if (tid.size() != 1) { out = "SETUP-FAIL no find_node query at the responder"; }
+    else {
+      std::string rt = t.at(5) == "m" ? tid : std::string(1, char(tid[0] ^ 1));
+      std::string id = t.at(6) == "m" ? resp : std::string(20, '\x5a');
+      std::string reply = "d1:rd2:id20:" + id;
+      if (has_nodes) reply += "5:nodes" + std::to_string(nodes.size()) + ":" + nodes;
+      reply += "e1:t1:" + rt + "1:y1:re";
+      int from_fd = script_sock(0x7f000000 + (t.at(7) == "s" ? 2 : 9));
+      if (sendto(from_fd, reply.data(), reply.size(), 0, reinterpret_cast<sockaddr*>(&dst), sizeof dst) != (ssize_t)reply.size())
+        throw std::runtime_error("sendto");
+      std::string e;
+      std::vector<std::pair<int, std::string>> after;
+      try {
+        r->m_server.event_read();
+        drain(&after);
+      } catch (internal_error& ex) { e = std::string("ERR:internal:") + us(ex.what());
+      } catch (bencode_error& ex) { e = "ERR:bencode";
+      } catch (std::exception& ex) { e = std::string("ERR:other:") + us(ex.what()); }
+      if (e.empty()) {
+        std::vector<std::string> qs;
+        for (auto& [k, d] : after) {
+          Object o;
+          std::string q = "undecodable";
+          try {
+            if (object_read_bencode_c(d.data(), d.data() + d.size(), &o) == d.data() + d.size() && o.is_map() && o.has_key_string("q")) {
+              q = o.get_key_string("q");
+              if (!(o.has_key_map("a") && o.get_key("a").has_key_string("id") && o.get_key("a").get_key_string("id") == own)) q += "!not-our-id";
+            } else if (o.is_map() && o.has_key_string("y")) q = "y=" + o.get_key_string("y");
+          } catch (bencode_error&) {}
+          qs.push_back(q + "@" + std::to_string(k));
+        }
+        std::sort(qs.begin(), qs.end());
+        for (auto& q : qs) { if (!e.empty()) e += ','; e += q; }
+        if (e.empty()) e = "-";
+      }
+      out = e;
+    }
+  } catch (internal_error& e) { out += std::string(" ERR:internal:") + us(e.what());
+  } catch (std::exception& e) { out += std::string(" ERR:other:") + us(e.what()); }
+  try { r->stop(); r.reset(); } catch (std::exception& e) { out += std::string(" cleanup-ERR:") + us(e.what()); r.release(); }
+  close_socks();
+  return out;
+}
+
 // ------------------------------------------------------------------ PeerList with PeerInfo entries
 //   PI <max> <now> ops…   I <6- or 18-byte record hex> <flags 0|1>   PeerList::insert_address(sa, flags)
 //                         S <ip hex> <connected 0|1> <last_handshake> harness set-up of an existing PeerInfo
@@ -295,7 +410,7 @@ static std::string run_pi(const std::vector<std::string>& t) {
 // ------------------------------------------------------------------ main
 
 static void on_alarm(int) {
-  static const char msg[] = "\nHANG: watchdog expired in a C14 case\n";
+  static const char msg[] = "\nTIMEOUT: C14 watchdog expired (a call blocked)\n";
   (void)!write(2, msg, sizeof(msg) - 1);
   _exit(3);
 }
@@ -312,6 +427,7 @@ int main() {
     try {
       if (t.size() >= 2 && t[0] == "DH") std::cout << run_dh(t) << "\n";
       else if (t.size() == 2 && t[0] == "DV") std::cout << run_dv(unhex(t[1])) << "\n";
+      else if (t.size() >= 8 && t[0] == "DF") std::cout << run_df(t) << "\n";
       else if (t.size() >= 3 && t[0] == "PI") std::cout << run_pi(t) << "\n";
       else std::cout << "BADCASE\n";
     } catch (internal_error& e) {
